@@ -1,5 +1,5 @@
 #!/bin/bash
 # usage: seedbatch.sh <root of seed dirs, e.g. /tmp/seed_out> Cxx [Cyy...]  — confirms every mN and runs all claimed checks on it
 root=$1; shift
-pkgdir(){ case "$(grep -m1 ^package $1/verif_demo_test.go | awk '{print $2}' | sed s/_test$//)" in dht) echo .;; bep44) echo bep44;; getput) echo exts/getput;; traversal) echo traversal;; krpc) echo krpc;; peer_store) echo peer-store;; k_nearest_nodes) echo k-nearest-nodes;; containers) echo containers;; types) echo types;; int160) echo int160;; transactions) echo transactions;; *) echo UNKNOWN;; esac; }
+pkgdir(){ [ -f $1/verif_demo_test.go ] || { echo .; return; };  case "$(grep -m1 ^package $1/verif_demo_test.go | awk '{print $2}' | sed s/_test$//)" in dht) echo .;; bep44) echo bep44;; getput) echo exts/getput;; traversal) echo traversal;; krpc) echo krpc;; peer_store) echo peer-store;; k_nearest_nodes) echo k-nearest-nodes;; containers) echo containers;; types) echo types;; int160) echo int160;; transactions) echo transactions;; *) echo UNKNOWN;; esac; }
 for p in "$@"; do for d in $root/$p/m*; do [ -f $d/patch.diff ] || continue; echo "######## $d"; /verif/seedconfirm.sh $d $(pkgdir $d) > $d/confirm.txt 2>&1; grep -E "CONFIRM|VIOLATION|BROKEN|VIOLATED|PATCH" $d/confirm.txt | cut -c1-330; done; done
